@@ -202,21 +202,21 @@ own status field (0), whose payload is the request's interface handle and timeou
 [null address, unconnected data], and the data item starts with the request's service code with bit 0x80 set. -/
 theorem service_bit (cfg : Cfg) (s : Srv) (f : Frame) (u : Bool) (i t : Nat) (w : Wrap) (r : Req) (raw : Bytes)
     (d' : Dev) (bs : Bytes) (hb : f.body = .send u i t w (.req r raw))
-    (hr : routable cfg w = true) (he : exec s.dev r = (d', some bs)) :
+    (hl : routedVia cfg w = none) (hr : routable cfg w = true) (he : exec s.dev r = (d', some bs)) :
     process cfg s f = ({ s with dev := d' },
       .reply (echo f f.hdr.status (Bytes.le 4 i ++ Bytes.le 2 t ++ cpfEncode [(0, []), (Generated.cpfUnconnected, bs)])))
     ∧ bs.head? = some (reqService r ||| 0x80) := by
   simp only [routable, Bool.and_eq_true] at hr
   obtain ⟨h1, h2⟩ := hr
   refine ⟨?_, exec_head he⟩
-  simp [process, processWith, hb, h1, h2, cmRequest, he, sendFraming]
+  simp [process, processWith, hb, hl, h1, h2, cmRequest, he, sendFraming]
 
 /-- **Unsupported or unroutable.**  A SendRRData request that cannot be delivered (refused route path, Unconnected
 Send to something that is not a Connection Manager), whose service no Object parses, or
 whose reply cannot be produced, is answered by exactly one frame: no payload, non-zero status, same command,
 context, session handle and options -- and the session ends there. -/
 theorem unsupported_nonzero (cfg : Cfg) (s : Srv) (f : Frame) (u : Bool) (i t : Nat) (w : Wrap) (c : Cip)
-    (rest : List Frame) (hb : f.body = .send u i t w c)
+    (rest : List Frame) (hb : f.body = .send u i t w c) (hl : routedVia cfg w = none)
     (h : routable cfg w = false ∨ (∃ code p raw, c = .unknown code p raw)
           ∨ (∃ r raw, c = .req r raw ∧ (exec s.dev r).2 = none)) :
     (process cfg s f).2 = .reply (echo f (failStatus f.hdr.status) []) ∧
@@ -225,7 +225,7 @@ theorem unsupported_nonzero (cfg : Cfg) (s : Srv) (f : Frame) (u : Bool) (i t : 
     (serve cfg s (f :: rest)).consumed = 1 ∧ (serve cfg s (f :: rest)).end = .closed := by
   have hne := failStatus_ne_zero f.hdr.status
   have key : (process cfg s f).2 = .reply (echo f (failStatus f.hdr.status) []) := by
-    simp only [process, processWith, hb, Bool.not_true, Bool.false_and, Bool.false_eq_true, ite_false]
+    simp only [process, processWith, hb, hl, Bool.not_true, Bool.false_and, Bool.false_eq_true, ite_false]
     by_cases h1 : routeAccepts cfg.route w = true
     · by_cases h2 : usendToCM w = true
       · simp only [h1, h2, Bool.not_true, Bool.false_eq_true, ite_false]
@@ -257,16 +257,109 @@ device stays well-formed, so the same holds for every later request of the sessi
 theorem tag_request_answered (cfg : Cfg) (s : Srv) (hwf : s.dev.WF) (f : Frame) (u : Bool) (i t : Nat) (w : Wrap)
     (sreq : Simple) (raw : Bytes) (hs : isTagService sreq = true)
     (hb : f.body = .send u i t w (.req (.simple sreq) raw))
-    (hr : routable cfg w = true) :
+    (hl : routedVia cfg w = none) (hr : routable cfg w = true) :
     ∃ bs, (process cfg s f).2 = .reply (echo f f.hdr.status (sendFraming i t bs))
       ∧ bs.head? = some (simpleService sreq ||| 0x80) ∧ (process cfg s f).1.dev.WF := by
   obtain ⟨hwf', bs, hbs⟩ := execSimple_preserves_wf_tag s.dev hwf sreq (by cases sreq <;> simp_all [isTagService])
   have he : exec s.dev (.simple sreq) = ((execSimple s.dev sreq).1, some bs) := by
     simp only [exec, hbs]
-  obtain ⟨h1, h2⟩ := service_bit cfg s f u i t w (.simple sreq) raw _ bs hb hr he
+  obtain ⟨h1, h2⟩ := service_bit cfg s f u i t w (.simple sreq) raw _ bs hb hl hr he
   refine ⟨bs, ?_, h2, ?_⟩
   · rw [h1]; rfl
   · rw [h1]; exact hwf'
+
+/-! ## requests forwarded through the routing table -/
+
+/-- the forwarding UCMM has, or can get, a registered connection to the route's device -/
+def connAvailable (s : Srv) : Prop := s.routeConn = true ∨ ∃ x ∈ s.rand, x ≠ 0
+
+/-- **Routed service bit.**  A request whose route path starts with a routing-table entry is forwarded; when the
+connection to the route's device is there (or can be made) and that device accepts the rest of the route and can
+produce the reply, the originator gets one frame, status 0, [null address, unconnected data], the data item
+starting with the request's service code with bit 0x80 set -- the reply to *this* request, computed from the
+current device state, whatever happened to earlier routed requests. -/
+theorem routed_service_bit (cfg : Cfg) (s : Srv) (f : Frame) (u : Bool) (i t : Nat) (w inner : Wrap) (r : Req)
+    (raw : Bytes) (d' : Dev) (bs : Bytes) (hb : f.body = .send u i t w (.req r raw))
+    (hv : routedVia cfg w = some inner) (hc : connAvailable s) (hr : routable cfg inner = true)
+    (he : exec s.dev r = (d', some bs)) :
+    (process cfg s f).2 = .reply (echo f 0 (sendFraming i t bs)) ∧ bs.head? = some (reqService r ||| 0x80)
+    ∧ (process cfg s f).1.dev = d' ∧ (process cfg s f).1.routeConn = true := by
+  simp only [routable, Bool.and_eq_true] at hr
+  obtain ⟨h1, h2⟩ := hr
+  refine ⟨?_, exec_head he, ?_⟩
+  all_goals
+    simp only [process, processWith, hb, hv]
+    by_cases hcn : s.routeConn = true
+    · simp [hcn, h1, h2, cmRequest, he]
+    · have hx : ∃ x ∈ s.rand, x ≠ 0 := by
+        rcases hc with h | h
+        · exact absurd h hcn
+        · exact h
+      obtain ⟨x, hxm, hx0⟩ := hx
+      obtain ⟨hd, rest, hp⟩ := pickNonzero_some_of_mem hxm hx0
+      simp [hcn, hp, h1, h2, cmRequest, he]
+
+/-- **A routed request that fails** -- no connection to the route's device can be made, that device refuses the
+rest of the route or the send path, no Object parses the service, or the reply cannot be produced -- is answered
+by exactly one header-only frame with the non-zero status 0x65, and leaves *no* connection behind: the next routed
+request starts from a fresh one. -/
+theorem routed_failure_nonzero (cfg : Cfg) (s : Srv) (f : Frame) (u : Bool) (i t : Nat) (w inner : Wrap) (c : Cip)
+    (hb : f.body = .send u i t w c) (hv : routedVia cfg w = some inner)
+    (h : ¬ connAvailable s ∨ routable cfg inner = false ∨ (∃ code p raw, c = .unknown code p raw)
+          ∨ (∃ r raw, c = .req r raw ∧ (exec s.dev r).2 = none)) :
+    (process cfg s f).2 = .reply (echo f routeFailStatus []) ∧ routeFailStatus ≠ 0 ∧
+    (process cfg s f).1.routeConn = false := by
+  have hne : routeFailStatus ≠ 0 := by decide
+  have key : (process cfg s f).2 = .reply (echo f routeFailStatus []) ∧ (process cfg s f).1.routeConn = false := by
+    simp only [process, processWith, hb, hv]
+    by_cases hcn : s.routeConn = true
+    · simp only [hcn, ite_true]
+      cases h1 : routeAccepts cfg.route inner with
+      | false => simp
+      | true =>
+        cases h2 : usendToCM inner with
+        | false => simp
+        | true =>
+          rcases h with h | h | ⟨code, p, raw, rfl⟩ | ⟨r, raw, rfl, he⟩
+          · exact absurd (Or.inl hcn) h
+          · simp [routable, h1, h2] at h
+          · simp [cmRequest]
+          · cases hx : exec s.dev r with
+            | mk d' o =>
+              rw [hx] at he
+              simp only at he
+              subst he
+              simp [cmRequest, hx]
+    · cases hp : pickNonzero s.rand with
+      | none => simp [hcn]
+      | some pr =>
+        obtain ⟨hd, rst⟩ := pr
+        simp only [hcn, Bool.false_eq_true, ite_false]
+        cases h1 : routeAccepts cfg.route inner with
+        | false => simp
+        | true =>
+          cases h2 : usendToCM inner with
+          | false => simp
+          | true =>
+            rcases h with h | h | ⟨code, p, raw, rfl⟩ | ⟨r, raw, rfl, he⟩
+            · exfalso
+              apply h
+              right
+              exact ⟨hd, pickNonzero_mem hp, pickNonzero_ne_zero hp⟩
+            · simp [routable, h1, h2] at h
+            · simp [cmRequest]
+            · cases hx : exec s.dev r with
+              | mk d' o =>
+                rw [hx] at he
+                simp only at he
+                subst he
+                simp [cmRequest, hx]
+  exact ⟨key.1, hne, key.2⟩
+
+/-- connections served one after the other: each is `serve` from the state the previous one left, so every theorem
+above (they hold for every state) applies to each connection of a sequence -/
+theorem serveSessions_cons (cfg : Cfg) (s : Srv) (fs : List Frame) (rest : List (List Frame)) :
+    serveSessions cfg s (fs :: rest) = serve cfg s fs :: serveSessions cfg (serve cfg s fs).srv rest := rfl
 
 /-- a frame whose item list is not [null address, unconnected data] is refused in the same way -/
 theorem bad_items_refused (cfg : Cfg) (s : Srv) (f : Frame) (u : Bool) (i t : Nat) (items : List (Nat × Bytes))
@@ -405,6 +498,29 @@ example : (serve {} demoSrv
           body := .send false 0 5 .direct (.req (.simple (.readTag [.symbolic "nosuch"] 1)) []) }, readFrame ]).replies.map
         (fun r => (r.status, r.payload.drop 16)) = [(0, [0xcc, 0, 5, 1, 0, 0]), (0, [0xcc, 0, 0, 0, 0xc3, 0, 7, 0, 8, 0])] := by
   decide +kernel
+
+/-- routing table {1/9}: a forwarded unknown service fails with 0x65 on one connection; the forwarded Read Tag on the
+next connection is answered in full (0xcc …), by a fresh connection to the route's device (handle 78 drawn) -/
+example :
+    let cfg : Cfg := { routes := [(1, 9)] }
+    let bad : Frame := { hdr := { session := 3, context := ctx 1 },
+                         body := .send false 0 5 (.usend 6 1 5 157 [(1, 9)]) (.unknown 0x77 [.cls 2, .ins 1] [0x77]) }
+    let good : Frame := { hdr := { session := 4, context := ctx 2 },
+                          body := .send false 0 5 (.usend 6 1 5 157 [(1, 9)]) readA }
+    (serveSessions cfg { demoSrv with rand := [77, 78] } [[bad], [good]]).map
+        (fun r => (r.replies.map fun x => (x.status, x.payload.drop 16), r.srv.routeConn, r.srv.rand))
+      = [([(0x65, [])], false, [78]), ([(0, [0xcc, 0, 0, 0, 0xc3, 0, 7, 0, 8, 0])], true, [])] := by
+  decide +kernel
+
+/-- hypotheses of `routed_service_bit` / `routed_failure_nonzero` are satisfiable -/
+example : routedVia { routes := [(1, 9)] } (.usend 6 1 5 157 [(1, 9)]) = some .direct
+    ∧ routedVia { routes := [(1, 9)] } (.usend 6 1 5 157 [(1, 9), (1, 0)]) = some (.usend 6 1 5 157 [(1, 0)])
+    ∧ connAvailable { demoSrv with rand := [0, 5] } ∧ ¬ connAvailable { demoSrv with rand := [0, 0] } := by
+  refine ⟨by decide, by decide, Or.inr ⟨5, by decide, by decide⟩, ?_⟩
+  rintro (h | ⟨x, hx, h0⟩)
+  · cases h
+  · simp only [List.mem_cons, List.not_mem_nil, or_false] at hx
+    rcases hx with rfl | rfl <;> exact h0 rfl
 
 /-- batches: [register, read] then [write] then the rest = all at once (instance of `pipelining_irrelevant`) -/
 example : serveBatches {} demoSrv [demoFrames.take 2, [], (demoFrames.drop 2).take 1, demoFrames.drop 3]
